@@ -47,6 +47,8 @@ import subprocess
 import sys
 import threading
 import traceback
+from concurrent.futures import Future, ThreadPoolExecutor
+from concurrent.futures import wait as _cf_wait
 from pathlib import Path
 
 if __name__ == "__main__":  # started as a child: make `vlib` importable
@@ -340,7 +342,83 @@ def solve_setup(setup: dict) -> dict:
     return s
 
 
-def run_solve(job: dict) -> dict:
+# ---- legal single-worker schedules -------------------------------------------------------------------------------
+# A ThreadPoolExecutor(max_workers=1) leaves open WHEN the single worker runs a task relative to what the submitting
+# thread does next.  The two executors below are the two extreme legal one-worker schedules, both deterministic; the
+# tasks still run on a worker thread (so the decision log attributes them to the worker as for the plain pool).
+class EagerExecutor(ThreadPoolExecutor):
+    """One worker; submit() returns only after the task has run to completion."""
+
+    def __init__(self):
+        super().__init__(max_workers=1)
+
+    def submit(self, fn, /, *args, **kwargs):
+        f = super().submit(fn, *args, **kwargs)
+        _cf_wait([f])
+        return f
+
+
+class _LazyFuture(Future):
+    """Future of a DeferredExecutor: the first time the submitting thread touches the synchronisation state of any
+    future (wait / result / done all start by acquiring `_condition`) the queued tasks are run."""
+
+    def __init__(self, executor):
+        self._executor = executor
+        self._armed = False
+        super().__init__()
+        self._armed = True
+
+    @property
+    def _condition(self):
+        ex = self._executor
+        if self._armed and not ex._draining and threading.get_ident() == ex._owner:
+            ex._drain()
+        return self._cond
+
+    @_condition.setter
+    def _condition(self, c):
+        self._cond = c
+
+
+class DeferredExecutor(ThreadPoolExecutor):
+    """One worker; submitted tasks are only queued.  They run, in submission order, one after the other on the worker
+    thread, when the submitting thread first asks for a result (or at shutdown)."""
+
+    def __init__(self):
+        super().__init__(max_workers=1)
+        self._owner = threading.get_ident()
+        self._queue = []
+        self._draining = False
+
+    def submit(self, fn, /, *args, **kwargs):
+        f = _LazyFuture(self)
+        self._queue.append((f, fn, args, kwargs))
+        return f
+
+    def _drain(self):
+        self._draining = True
+        try:
+            while self._queue:
+                lazy, fn, args, kwargs = self._queue.pop(0)
+                inner = super().submit(fn, *args, **kwargs)
+                _cf_wait([inner])
+                if inner.exception() is not None:
+                    lazy.set_exception(inner.exception())
+                else:
+                    lazy.set_result(inner.result())
+        finally:
+            self._draining = False
+
+    def shutdown(self, wait=True, *, cancel_futures=False):
+        if threading.get_ident() == self._owner and not self._draining:
+            self._drain()
+        return super().shutdown(wait=wait, cancel_futures=cancel_futures)
+
+
+EXECUTORS = {"pool": None, "eager": EagerExecutor, "deferred": DeferredExecutor}
+
+
+def run_solve(job: dict, executor: str = "pool") -> dict:
     from vlib import solverkit
 
     setup = solve_setup(job["setup"])
@@ -353,6 +431,9 @@ def run_solve(job: dict) -> dict:
             solver, call, _parts = solverkit.build_evqe(setup)
             _speed_up_batching(solver)
             _set_optimizer(solver, setup.get("optimizer", "coordinate"))
+            if EXECUTORS[executor] is not None:  # another legal schedule of the ONE worker (still a ThreadPoolExecutor)
+                solver.configuration.parallel_executor.shutdown(wait=True)
+                solver.configuration.parallel_executor = EXECUTORS[executor]()
             real_init = solver.configuration.population_initializer
 
             def tapped_init(n_qubits, _real=real_init):
@@ -453,7 +534,7 @@ def _ambient_snapshot():
     return {"random": hash(random.getstate()), "numpy.random": hash((st[0], st[1].tobytes(), st[2], st[3], st[4]))}
 
 
-def run_job(job: dict, ambient: int | None) -> dict:
+def run_job(job: dict, ambient: int | None, executor: str = "pool") -> dict:
     """Run one job under the ambient state number `ambient` (None: keep whatever state the previous call left and
     only advance the ambient generators by one draw each - the back-to-back repetition).  Besides fp and log the
     result says which ambient generators were advanced during the call (information only; not compared)."""
@@ -462,7 +543,7 @@ def run_job(job: dict, ambient: int | None) -> dict:
     else:
         set_ambient(ambient)
     before = _ambient_snapshot()
-    out = run_solve(job) if job["kind"] == "solve" else run_constructor(job)
+    out = run_solve(job, executor) if job["kind"] == "solve" else run_constructor(job)
     after = _ambient_snapshot()
     out["ambient_touched"] = {k: before[k] != after[k] for k in before}
     return out
